@@ -9,7 +9,7 @@
 //             w,<type>,<size>,<hex>  same, wire image composed from the fields (raw part zero padded)
 //   receiver: c,<type> checkType   i getInt   s getString   f,<n> getFixed(n bytes)   m hasMoreData   y rawType
 //             C  R = copy of R (copy constructor; resets the read offset)    o  private offset and size (model comparison)
-// Output: one token per op:  "+" done, "!" an exception was thrown (Must), values as i:<n> s:<hex> f:<hex> m:<0|1> y:<n>
+// Output: one token per op (x and X answer x:<R has iov>:<type_>:<size>:<hex of raw[0,size)>):  "+" done, "!" an exception was thrown (Must), values as i:<n> s:<hex> f:<hex> m:<0|1> y:<n>
 //   o:<offset>:<size>;  "oob" = the call returned normally after copying from beyond data.raw (offset past the buffer).
 #include "squid.h"
 #include "base/TextException.h"
@@ -88,6 +88,14 @@ static void receive(TypedMsgHdr &r, const char *bytes, size_t n) {
     memcpy(r.msg_iov[0].iov_base, bytes, n < room ? n : room);
 }
 
+// what the receiver now holds: <has iov>:<type_>:<size>:<hex of raw[0, min(size, sizeof raw))>
+static std::string received(const TypedMsgHdr &r) {
+    std::ostringstream os;
+    const size_t n = r.data.size < RawSize ? r.data.size : RawSize;
+    os << (r.msg_iov ? 1 : 0) << ":" << r.data.type_ << ":" << r.data.size << ":" << hex(r.data.raw, n);
+    return os.str();
+}
+
 static std::string runLine(const std::string &line) {
     TypedMsgHdr *S = new TypedMsgHdr;
     TypedMsgHdr *R = new TypedMsgHdr;
@@ -124,9 +132,9 @@ static std::string runLine(const std::string &line) {
                 } else {
                     R->prepForReading();
                 }
-                os << "+";
+                os << "x:" << received(*R);
             } else if (f[0] == "X" && f.size() == 1) {
-                *R = *S; os << "+";
+                *R = *S; os << "X:" << received(*R);
             } else if (f[0] == "W" && f.size() == 2 && unhex(f[1], bytes) && bytes.size() <= sizeof(TypedMsgHdr::DataBuffer)) {
                 receive(*R, bytes.data(), bytes.size()); os << "+";
             } else if (f[0] == "w" && f.size() == 4 && num(f[1], v) && v >= -2147483647LL - 1 && v <= 2147483647LL &&
